@@ -11,3 +11,12 @@ __CPROVER_loop_invariant(0 <= value)
 __CPROVER_loop_invariant(__CPROVER_POINTER_OFFSET(p) > __CPROVER_POINTER_OFFSET(op) ==> IS_DIGIT(*(p - 1)))
 __CPROVER_decreases(gs_n - (size_t)__CPROVER_POINTER_OFFSET(p))""",
 }
+
+# ParseOffset: ghost mirrors of the parsed numbers (contracts/posix.h)
+GHOST['ParseOffset'] = {}
+HOOKS['ParseOffset'] = [
+    (r'int hours = 0 ;', 'gp_h = 0; gp_m = 0; gp_s = 0;', 'after'),
+    (r'p = ParseInt \( p , min_hour , max_hour , & hours \) ;', 'gp_h = hours;', 'after'),
+    (r'p = ParseInt \( p \+ 1 , 0 , 59 , & minutes \) ;', 'gp_m = minutes;', 'after'),
+    (r'p = ParseInt \( p \+ 1 , 0 , 59 , & seconds \) ;', 'gp_s = seconds;', 'after'),
+]
